@@ -1,102 +1,2 @@
-"""C01 — FTI payload codecs: standard wire layout and exact round trip."""
-from ..core import hexb, run_line_impl, run_driver, SPECDRIVER, ADAPTERS, canon, parse_val, pyval
-from ..runner import Failure
-from .. import gen
-
-ID = "C01"
-RULE = ("histories `set fields…|pack|obs` and `unpack bytes|obs|pack` per class: every field at 0, 1, max, sign bit and "
-        "random over its width, payload lengths in every padding residue; non-trivial = the implementation returned a "
-        "successful result; distinct = distinct request text")
-
-# ---------------------------------------------------------------------------------- iNetX
-INETX_FIELDS = [("inetxcontrol", 32), ("streamid", 32), ("sequence", 32), ("ptptimeseconds", 32),
-                ("ptptimenanoseconds", 32), ("pif", 32)]
-
-def inetx_cases(ctx):
-    rng = ctx.rng
-    cases = []
-    for n in gen.payload_lengths(rng, n_random=ctx.scale(6, 200)):
-        f = {k: rng.boundary(b) for k, b in INETX_FIELDS}
-        cases.append((f, rng.bytes_(n)))
-    for k, b in INETX_FIELDS:                       # each field over its boundaries, others fixed
-        for v in (0, 1, (1 << b) - 1, 1 << (b - 1), (1 << b)):      # the last one does not fit
-            f = {kk: 7 for kk, _ in INETX_FIELDS}
-            f[k] = v
-            cases.append((f, b"\x01\x02\x03"))
-    return cases
-
-def inetx_lines(ctx):
-    lines = []
-    for f, p in inetx_cases(ctx):
-        ops = gen.sets({k: str(v) for k, v in f.items()}) + ["set payload " + hexb(p), "pack", "obs"]
-        lines.append(gen.H("iNetX", ops))
-    return lines
-
-def correspondence(ctx):
-    lines = []
-    lines += inetx_lines(ctx)
-    # decode side: bytes produced by the implementation, decoded into a fresh object, re-encoded
-    enc = []
-    for l in list(lines):
-        a = run_line_impl(l)
-        parts = a.split("|")
-        for p in parts:
-            if p.startswith("ok:x"):
-                cls = l.split()[1]
-                enc.append((cls, p[3:]))
-    for cls, hx in enc:
-        lines.append(gen.H(cls, ["unpack " + hx, "obs", "pack", "obs"]))
-    return lines
-
-# ---------------------------------------------------------------------------------- oracles
-def _spec(lines):
-    return run_driver(lines, exe=SPECDRIVER)
-
-def check_inetx_layout(args):
-    """pack() == Spec layout; unpack(pack) returns the same fields; re-pack reproduces the bytes"""
-    import AcraNetwork.iNetX as inetx
-    f, p = args["fields"], bytes.fromhex(args["payload"])
-    o = inetx.iNetX()
-    for k, v in f.items():
-        setattr(o, k, v)
-    o.payload = p
-    try:
-        b = o.pack()
-    except Exception as e:
-        if all(0 <= v < 2**32 for v in f.values()):
-            return "iNetX.pack raised %r on fields that fit their widths" % (e,)
-        return None
-    if not all(0 <= v < 2**32 for v in f.values()):
-        return "iNetX.pack accepted a field that does not fit 32 bits"
-    exp = _spec([gen.F("spec.iNetX.encode", str(f["inetxcontrol"]), str(f["streamid"]), str(f["sequence"]),
-                       str(f["ptptimeseconds"]), str(f["ptptimenanoseconds"]), str(f["pif"]), hexb(p))])[0]
-    if exp != "ok:" + hexb(b):
-        return "iNetX.pack emits %s but the iNET-X layout is %s" % (hexb(b), exp)
-    q = inetx.iNetX()
-    q.unpack(b)
-    for k, v in f.items():
-        if getattr(q, k) != v:
-            return "iNetX round trip changes %s: %r -> %r" % (k, v, getattr(q, k))
-    if q.payload != p or q.packetlen != len(b):
-        return "iNetX round trip changes payload/packetlen"
-    if q.pack() != b:
-        return "iNetX re-encode of decoded packet differs"
-    return None
-
-ORACLES = {"inetx_layout": check_inetx_layout}
-
-def oracles(ctx, hints):
-    fails = []
-    n = 0
-    for f, p in inetx_cases(ctx)[: ctx.scale(80, 2000)]:
-        args = {"fields": f, "payload": p.hex()}
-        n += 1
-        w = check_inetx_layout(args)
-        if w:
-            fails.append(Failure("inetx_layout", args, w, {"class": "iNetX", "check": "layout"}))
-            break
-    ctx.count("oracle_evaluations", n)
-    return fails
-
-def replay(name, args):
-    return ORACLES[name](args)
+from ._agg import make
+globals().update(make("C01"))
